@@ -49,7 +49,11 @@ MODES = {
     "mergetool_badfile": dict(mergetool_args=dict(base="a.ipynb", local="notnb.txt", remote="c.ipynb"), closable=True, base_url="/"),
     # a base URL with a regular expression metacharacter (a JupyterHub style prefix such as /user/a.b/)
     "mergeweb_out": dict(outputfilename="out.ipynb", closable=False, base_url="/nb.dime/"),
+    "mergetool_inplace": dict(mergetool_args=dict(base="a.ipynb", local="b.ipynb", remote="c.ipynb"), outputfilename="b.ipynb",
+                              closable=True, base_url="/"),
+    "mergeweb_newdir": dict(outputfilename="newdir/out.ipynb", closable=False, base_url="/"),
 }
+STORED = {"store_6": 6, "store_7_extra": 7, "store_surrogate": 8}
 NB = {}
 
 
@@ -86,8 +90,11 @@ def install(d, disk):
 
 
 def listing(d):
+    """every file (bytes) and every directory (None) below d"""
     out = {}
     for root, dirs, files in os.walk(d):
+        for sub in dirs:
+            out[os.path.relpath(os.path.join(root, sub), d) + "/"] = None
         for f in files:
             p = os.path.join(root, f)
             with open(p, "rb") as fh:
@@ -95,11 +102,28 @@ def listing(d):
     return out
 
 
+def observed_disk(mode, lst):
+    """the listing in the model's terms: file -> content id (0 absent, -2 a directory the model does not know)"""
+    disk = {}
+    for f, data in lst.items():
+        if data is None:
+            disk[f] = -2
+        elif mode == "mergeweb_newdir" and f == "newdir/out.ipynb":
+            disk["out.ipynb"] = content_id(f, data)
+        else:
+            disk[f] = content_id(f, data)
+    if mode == "mergeweb_newdir":
+        disk.setdefault("out.ipynb", 0)
+    return disk
+
+
 def content_id(name, data):
     """map file bytes back to a model content id (-1: unknown / damaged)"""
     for cid in (1, 2, 3, 4, 5):
         if data == file_bytes(cid):
             return cid
+    if data == b"":
+        return -3          # truncated
     try:
         nb = nbformat.reads(data.decode("utf8"), as_version=4)
     except Exception:
@@ -221,7 +245,8 @@ def replay(task):
     d = os.path.join(root, "s%d" % k, "srv")
     problems, diff_events, answers = [], [], []
     try:
-        install(d, {f: c for f, c in zip(("a.ipynb", "b.ipynb", "c.ipynb", "notnb.txt", "out.ipynb"), (1, 2, 3, 4, 5))})
+        install(d, {f: c for f, c in zip(("a.ipynb", "b.ipynb", "c.ipynb", "notnb.txt", "out.ipynb"), (1, 2, 3, 4, 5))
+                    if not (mode == "mergeweb_newdir" and f == "out.ipynb")})
         reqs = [s["req"] for s in seq]
         out = serve(mode, d, reqs)
         for j, (step, obs) in enumerate(zip(seq, out)):
@@ -230,19 +255,21 @@ def replay(task):
                 sc = "ok"             # the loop may stop before the response is delivered
             prefix_desc = {"mode": mode, "requests": reqs[:j + 1]}
             alt = step.get("alt") if isinstance(step.get("alt"), list) else []
-            if step["req"] == "store_surrogate" and sc == "ok" and "ok" in alt:
-                # accepted: the output file must hold the submitted notebook, nothing else may have changed
-                disk = {f: content_id(f, data) for f, data in obs["listing"].items()}
-                want = dict(step["disk"], **{"out.ipynb": 8})
+            if step["req"] in STORED and sc == "ok" and "ok" in alt and step["resp"] != "ok":
+                # accepted where the model's first answer is a refusal: the output file must hold the submitted
+                # notebook, nothing else may have changed (a directory created for it aside); the replay ends here
+                disk = {f: c for f, c in observed_disk(mode, obs["listing"]).items() if c != -2}
+                outkey = "b.ipynb" if mode == "mergetool_inplace" else "out.ipynb"
+                want = dict(step["disk"], **{outkey: STORED[step["req"]]})
                 if disk != want:
-                    problems.append(("disk:%s:store_surrogate" % mode, "store answered ok but the directory is %s" % disk, prefix_desc))
+                    problems.append(("disk:%s:%s-accepted" % (mode, step["req"]), "store answered ok but the directory is %s" % disk, prefix_desc))
                 break
             if sc != step["resp"] and sc not in alt:
                 problems.append(("status:%s:%s:expected-%s-got-%s" % (mode, step["req"], step["resp"], sc),
                                  "request %s answered %s (HTTP %s), the model says %s" % (step["req"], sc, obs["status"], step["resp"]),
                                  prefix_desc))
                 break
-            disk = {f: content_id(f, data) for f, data in obs["listing"].items()}
+            disk = observed_disk(mode, obs["listing"])
             want = {f: c for f, c in step["disk"].items()}
             if disk != want:
                 extra = sorted(set(disk) - set(want))
@@ -256,7 +283,7 @@ def replay(task):
                                  % ("stopped" if obs["stopped"] else "still runs", step["req"], step["running"]), prefix_desc))
                 break
             if sc == "ok" and step["resp"] == "ok" and step["req"].startswith(("diff_", "merge_")):
-                answers.append((mode, step["req"], json.dumps(step["disk"], sort_keys=True) if j else "disk0",
+                answers.append((mode, step["req"], json.dumps(step["disk"], sort_keys=True),
                                 hashlib.sha1(obs["body"]).hexdigest(), j, reqs[:j + 1]))
                 if j == 0 or True:
                     try:
@@ -303,8 +330,13 @@ def run():
         chk.add_model(r3, "WebApi Mode=%s MaxLen=3" % mode)
         seq3 = r3.json_lines("SEQ")
         if chk.quick:
+            # always: a valid request, a store that succeeds, a valid request again (what is answered after the files on
+            # disk changed); the rest is a seeded sample
+            asks = ("merge_abc", "diff_ab", "diff_bc")
+            keep = [q for q in seq3 if q[1]["req"] in ("store_6", "store_7_extra") and q[1]["resp"] == "ok"
+                    and q[0]["req"] in asks and q[2]["req"] in asks]
             rr.shuffle(seq3)
-            seq3 = seq3[:150]
+            seq3 = keep + seq3[:150]
         seen = set()
         for s in seqs + seq3:
             key = json.dumps(s, sort_keys=True)
@@ -329,7 +361,7 @@ def run():
             chk.violation(sig, desc, info)
         # history independence: same (mode, request, disk) => same answer bytes, whatever came before
         for a in answers:
-            key = (a[0], a[1])
+            key = (a[0], a[1], a[2])          # same mode, request and files on disk => same answer
             h = a[3]
             if key not in first_answer:
                 first_answer[key] = (h, a[5])
@@ -339,13 +371,15 @@ def run():
                               {"mode": a[0], "history_1": first_answer[key][1], "history_2": a[5]})
             if len(a) > 6 and a[1] == "merge_abc" or (len(a) > 6 and a[0].startswith("mergetool")):
                 body = a[6]
-                if "lib" not in lib:
+                if a[2] not in lib:
+                    # the library's answer for the notebooks that are on disk when the request arrives
                     from nbdime.merging.notebooks import decide_notebook_merge
-                    rd = lambda c: nbformat.reads(file_bytes(c).decode("utf8"), as_version=4)  # noqa
-                    dec = decide_notebook_merge(rd(1), rd(2), rd(3), mergedrv.mergetool_args())
-                    lib["lib"] = (canon(json.loads(json.dumps(dec))), canon(to_plain(rd(1))))
+                    rd = lambda c: nbformat.reads(file_bytes(c).decode("utf8") if c <= 5 else nbformat.writes(NB[c]), as_version=4)  # noqa
+                    dk = json.loads(a[2])
+                    dec = decide_notebook_merge(rd(dk["a.ipynb"]), rd(dk["b.ipynb"]), rd(dk["c.ipynb"]), mergedrv.mergetool_args())
+                    lib[a[2]] = (canon(json.loads(json.dumps(dec))), canon(to_plain(rd(dk["a.ipynb"]))))
                 got = (canon(body.get("merge_decisions")), canon(body.get("base")))
-                if got != lib["lib"]:
+                if got != lib[a[2]]:
                     chk.violation("merge-answer-differs-from-library:%s" % a[0],
                                   "POST /api/merge returned decisions/base that differ from decide_notebook_merge (mergetool strategy)",
                                   {"mode": a[0], "history": a[5]})
